@@ -12,6 +12,7 @@
 -/
 import BufrModel.Lemmas.Template
 import BufrModel.Lemmas.TableDefMerge
+import BufrModel.Spec.Reach
 namespace Bufr
 open Spec Bufr.TableDef Bufr.C20
 
@@ -75,12 +76,8 @@ theorem extend_d_of_none (T : Tables) (es : Entries) (i : Nat) (h : es.lookupD i
   unfold extend Entries.lookupD at *
   rw [foldl_insertD_d, foldl_insertB_d, h]; rfl
 
-/-- the ids a descriptor list reaches: its own and, through Table D, those of the rows of the
-    sequence descriptors reached -/
-inductive Reach (T : Tables) (ids : List Nat) : Nat → Prop
-  | root (i : Nat) : i ∈ ids → Reach T ids i
-  | step (s : Nat) (row : List Nat) (m : Nat) : Reach T ids s → 300000 ≤ s → T.d s = some row → m ∈ row →
-      Reach T ids m
+/- `Reach T ids i` (the ids a descriptor list reaches: its own and, through Table D, those of the rows of the
+   sequence descriptors reached) is `Bufr.Reach` of `Spec/Reach.lean` (shared with Props/C01Tables.lean). -/
 
 /-! ### the counting machine simulated by `take`/`drop`, for a predicate -/
 
